@@ -46,11 +46,14 @@ func (dm *defaultMkdirerPipeline) worker(ctx context.Context, wg *sync.WaitGroup
 			if !ok {
 				return
 			}
+			verifPoint("mkdir.recv")
 			if dm.isExistRoot([]*Node{root}) {
+				verifPoint("mkdir.err")
 				errc <- ErrExistPath
 				return
 			}
 			if err := dm.makeDirectoriesAndFiles(root); err != nil {
+				verifPoint("mkdir.err")
 				errc <- err
 				return
 			}
